@@ -98,6 +98,11 @@ def run_job(job):
         kw = {}
         if "extra_padding" in opts:
             kw["extra_padding"] = opts["extra_padding"]
+        if opts.get("skip_nonsup") is not None:  # Graph(skip=[kind]): the n-th non-supervisor node never executes
+            cands = [n["name"] for n in cfg["nodes"] if n["name"] != cfg["sup"]]
+            opts = dict(opts, skip=[cands[opts["skip_nonsup"] % len(cands)]])
+        if opts.get("skip"):
+            kw["skip"] = list(opts["skip"])
         try:
             G = Graph(nodes=dict(nodes), supervisor=nodes[cfg["sup"]], graphs_raw=g_raw, supergraph=compiled.MODES[mode], prune=prune,
                       progress_bar=False, **kw)
@@ -108,7 +113,7 @@ def run_job(job):
         if refused:
             out.setdefault("notes", []).append(f"{mode}/{prune}: Graph.init() refused: {refused} (DESIGN 10.4)")
             continue
-        tagm = f"{job.get('id', 'job')}/{mode}/{'prune' if prune else 'noprune'}"
+        tagm = f"{job.get('id', 'job')}/{mode}/{'prune' if prune else 'noprune'}{'/skip_' + opts['skip'][0] if opts.get('skip') else ''}"
         runner = {True: compiled.CompiledRunner(G, nodes, cfg, jit=True), False: compiled.CompiledRunner(G, nodes, cfg, jit=False)}
         statics = {}
         for ri, run in enumerate(job["runs"]):
@@ -154,6 +159,8 @@ def run_job(job):
                 for le in compiled.log_for_run(ar["log"], cfg, rngidx):
                     ref[le["kind"]].append(le)
             t = compiled.project_run(st, cfg, gs0, hist, log, gs_f, rngidx, f"{tagm}/r{ri}", rec=rec, ref=ref)
+            if opts.get("skip"):
+                t["skip"] = list(opts["skip"])
             out["runs"].append(t)
             out.setdefault("digests", []).append(_digest(gs_f.replace(aux=gs0.aux)))
             out["meta"].append(dict(mode=mode, prune=prune, history=run["history"], jit=bool(run.get("jit", True)), nlog=len(log), eps=e_eff,
